@@ -10,8 +10,8 @@ COMMON_ASSUME = [
 PROPS = {
     "C18": {
         "units": [
-            {"pkg": "./mainpkg", "run": "^TestC18", "shards": 4, "shards_thorough": 8, "timeout": 1200},
-            {"pkg": "./sysbin", "run": "^TestC18", "shards": 1, "shards_thorough": 2, "timeout": 900},
+            {"pkg": "./mainpkg", "run": "^TestC18", "shards": 4, "shards_thorough": 8, "timeout": 400},
+            {"pkg": "./sysbin", "run": "^TestC18", "shards": 1, "shards_thorough": 2, "timeout": 300},
         ],
         "rule": ("rapid-generated shutdown scenarios against the exported listener functions: any non-empty subset of {http, tcp, tcp+sni, grpc, https+tcp+sni} registered through ListenAndServeHTTP/TCP/GRPC/HTTPSTCPSNI "
                  "on free loopback ports (the gRPC one with main.go's newGrpcProxy options), wait W in [200 ms, 1.5 s], 0-3 pieces of in-flight work per listener (HTTP and HTTPS requests, TCP and SNI tunnels incl. SNI "
@@ -26,7 +26,7 @@ PROPS = {
         "assumptions": COMMON_ASSUME,
     },
     "C16": {
-        "units": [{"pkg": "./mainpkg", "run": "^TestC16", "shards": 4, "shards_thorough": 8, "timeout": 1200}],
+        "units": [{"pkg": "./mainpkg", "run": "^TestC16", "shards": 4, "shards_thorough": 8, "timeout": 400}],
         "rule": ("in-process chain gRPC client -> grpc.Server built from main.go's newGrpcProxy options -> 3 scripted grpc-go backends (UnknownServiceHandler; client and backends use a raw-bytes codec). rapid-generated "
                  "tables (host-less and dsthost-specific routes per service, nested method prefixes, 1-2 backends per route, replaced before every group of 1-4 calls) and calls: method path incl. unrouted ones, "
                  "dsthost metadata absent/present/upper-case/unknown/duplicated, 0-6 custom metadata entries incl. repeated keys, empty values and -bin keys, unary / client- / server- / bidi-streaming shapes with "
@@ -44,8 +44,8 @@ PROPS = {
     },
     "C01": {
         "units": [
-            {"pkg": "./c01", "shards": 4, "shards_thorough": 16, "timeout": 900},
-            {"pkg": "./mainpkg", "run": "^TestC01", "shards": 4, "shards_thorough": 8, "timeout": 1200},
+            {"pkg": "./c01", "shards": 4, "shards_thorough": 16, "timeout": 300},
+            {"pkg": "./mainpkg", "run": "^TestC01", "shards": 4, "shards_thorough": 8, "timeout": 400},
         ],
         "rule": ("Layer A (function, via hook VerifPassingServices = tag-prefix filter + passingServices): rapid-generated check multisets over 1-3 nodes x 0-4 service instances, 0-4 service checks per instance with "
                  "status in {passing, warning, critical, unknown, ''}, serfHealth absent/passing/critical/duplicated, node maintenance, service maintenance, other node-level checks, tagged and untagged instances, the "
@@ -63,9 +63,9 @@ PROPS = {
     },
     "C14": {
         "units": [
-            {"pkg": "./c14", "run": "TestC14Commands", "shards": 4, "shards_thorough": 16, "timeout": 900},
-            {"pkg": "./c14", "run": "TestC14ConcurrentBuild", "race": True, "shards": 2, "shards_thorough": 6, "timeout": 900},
-            {"pkg": "./mainpkg", "run": "^TestC14", "shards": 4, "shards_thorough": 8, "timeout": 1200},
+            {"pkg": "./c14", "run": "TestC14Commands", "shards": 4, "shards_thorough": 16, "timeout": 300},
+            {"pkg": "./c14", "run": "TestC14ConcurrentBuild", "race": True, "shards": 2, "shards_thorough": 6, "timeout": 300},
+            {"pkg": "./mainpkg", "run": "^TestC14", "shards": 4, "shards_thorough": 8, "timeout": 400},
         ],
         "rule": ("rapid-generated Consul catalog entries: service names (plain, dotted, with space/tab/newline, quote, backslash, non-ASCII, empty, keywords), service/node addresses (IPv4, IPv6, host name, empty -> node "
                  "address), ports, 1-3 urlprefix- tags host/path with mixed-case hosts, :port form, $DC/${DC} expansion, glob characters, and 0-3 options from {proto=tcp|https|grpc|grpcs|http|bogus, weight=<float|junk|Inf|"
@@ -83,9 +83,9 @@ PROPS = {
     },
     "C11": {
         "units": [
-            {"pkg": "./c11", "run": "TestC11Selection|TestC11Handshakes|TestC11SourceHistories", "shards": 4, "shards_thorough": 8, "timeout": 900},
-            {"pkg": "./mainpkg", "run": "^TestC11", "shards": 2, "shards_thorough": 4, "timeout": 900},
-            {"pkg": "./c11", "run": "TestC11ConcurrentReplacement", "race": True, "shards": 2, "shards_thorough": 4, "timeout": 900},
+            {"pkg": "./c11", "run": "TestC11Selection|TestC11Handshakes|TestC11SourceHistories", "shards": 4, "shards_thorough": 8, "timeout": 300},
+            {"pkg": "./mainpkg", "run": "^TestC11", "shards": 2, "shards_thorough": 4, "timeout": 300},
+            {"pkg": "./c11", "run": "TestC11ConcurrentReplacement", "race": True, "shards": 2, "shards_thorough": 4, "timeout": 300},
         ],
         "rule": ("rapid-generated certificate sets of 1-6 self-signed ECDSA certificates with common names and SAN lists drawn from a small universe with *.x wildcards at two depths and overlapping names, published "
                  "through cert.TLSConfig by a harness Source; requested names exact / wildcard instance / deeper than the wildcard / unrelated / upper and mixed case / one or two trailing dots / empty; strict and "
@@ -101,7 +101,7 @@ PROPS = {
         "assumptions": COMMON_ASSUME,
     },
     "C06": {
-        "units": [{"pkg": "./c06", "race": True, "shards": 4, "shards_thorough": 8, "timeout": 900}],
+        "units": [{"pkg": "./c06", "race": True, "shards": 4, "shards_thorough": 8, "timeout": 300}],
         "parallel": 4,
         "rule": ("rapid-generated concurrent workloads, all under the Go race detector: (a) routes with 2-12 weighted/unweighted targets: L lookups sequentially on one copy of the table and the same L lookups split over "
                  "2-32 goroutines on a twin copy must give identical per-target counts (round robin hands out every slot exactly once); (b) tables with more glob host patterns than the cache size (1-8): every lookup "
@@ -116,9 +116,9 @@ PROPS = {
     },
     "C19": {
         "units": [
-            {"pkg": "./c19", "shards": 2, "shards_thorough": 8, "timeout": 900},
-            {"pkg": "./mainpkg", "run": "^TestC19", "shards": 1, "shards_thorough": 2, "timeout": 900},
-            {"pkg": "./sysbin", "run": "^TestC19", "shards": 1, "shards_thorough": 2, "timeout": 900},
+            {"pkg": "./c19", "shards": 2, "shards_thorough": 8, "timeout": 300},
+            {"pkg": "./mainpkg", "run": "^TestC19", "shards": 1, "shards_thorough": 2, "timeout": 300},
+            {"pkg": "./sysbin", "run": "^TestC19", "shards": 1, "shards_thorough": 2, "timeout": 300},
         ],
         "rule": ("rapid-generated values of the five proxy transport options (dial timeout, response-header timeout, keep-alive, idle-conn timeout, max idle conns per host; each incl. 0) drawn independently. Structural "
                  "oracle for every configuration and the three transport kinds (default, skip-verify, per-route host= override built by route.NewTable, and the transports main.go's newHTTPProxy builds): after "
@@ -133,8 +133,8 @@ PROPS = {
     },
     "C09": {
         "units": [
-            {"pkg": "./c09", "shards": 8, "shards_thorough": 16, "timeout": 900},
-            {"pkg": "./mainpkg", "run": "^TestC09", "shards": 2, "shards_thorough": 4, "timeout": 900},
+            {"pkg": "./c09", "shards": 8, "shards_thorough": 16, "timeout": 300},
+            {"pkg": "./mainpkg", "run": "^TestC09", "shards": 2, "shards_thorough": 4, "timeout": 300},
         ],
         "rule": ("real loopback sockets: tcp.Server with Proxy / SNIProxy / DynamicProxy handlers and the websocket path of HTTPProxy between a scripted client and a scripted upstream. rapid-generated tunnels: client and "
                  "upstream streams of 0 B-200 KiB (thorough 4 MiB) of random bytes, a segmentation per direction (one write, 1-16 byte writes, sizes around the 32 KiB copy buffer, arbitrary sizes, optional yields), both "
@@ -151,8 +151,8 @@ PROPS = {
     },
     "C08": {
         "units": [
-            {"pkg": "./c08", "shards": 4, "shards_thorough": 16, "timeout": 900},
-            {"pkg": "./mainpkg", "run": "^TestC08", "shards": 2, "shards_thorough": 4, "timeout": 900},
+            {"pkg": "./c08", "shards": 4, "shards_thorough": 16, "timeout": 300},
+            {"pkg": "./mainpkg", "run": "^TestC08", "shards": 2, "shards_thorough": 4, "timeout": 300},
         ],
         "rule": ("rapid-generated scenarios: peer address (IPv4, IPv6, 4-in-6, any port), TLS on/off with version/cipher, client Host with and without port incl. IPv6 literals, client header sets with forged or "
                  "chained copies of every managed header (X-Forwarded-For 0-2 lines, -Proto, -Port, -Host, Forwarded with/without proto=, X-Real-Ip, the configured client-IP and TLS headers, repeated), configurations "
@@ -170,9 +170,9 @@ PROPS = {
     },
     "C07": {
         "units": [
-            {"pkg": "./c07", "run": "TestC07PassThrough|TestC07NoRoute", "shards": 6, "shards_thorough": 16, "timeout": 900},
-            {"pkg": "./c07", "run": "TestC07ConcurrentExchanges", "race": True, "shards": 2, "shards_thorough": 6, "timeout": 900},
-            {"pkg": "./mainpkg", "run": "^TestC07", "shards": 2, "shards_thorough": 4, "timeout": 900},
+            {"pkg": "./c07", "run": "TestC07PassThrough|TestC07NoRoute", "shards": 6, "shards_thorough": 16, "timeout": 300},
+            {"pkg": "./c07", "run": "TestC07ConcurrentExchanges", "race": True, "shards": 2, "shards_thorough": 6, "timeout": 300},
+            {"pkg": "./mainpkg", "run": "^TestC07", "shards": 2, "shards_thorough": 4, "timeout": 300},
         ],
         "rule": ("real loopback chain raw-TCP client -> proxy.HTTPProxy (httptest server, real http.Transport) -> recording upstream. rapid-generated requests: method (GET POST PUT DELETE PATCH OPTIONS HEAD PURGE), "
                  "request target with percent-encoded octets (%2F %2f %20 %41 %C3%A9 %25 %3F %23), dot segments, empty segments, query (absent / encoded / repeated keys), 0-8 end-to-end headers with odd-cased and "
@@ -190,8 +190,8 @@ PROPS = {
     },
     "C17": {
         "units": [
-            {"pkg": "./c17", "run": "TestC17Handler|TestC17ThroughProxy", "shards": 4, "shards_thorough": 16, "timeout": 900},
-            {"pkg": "./c17", "run": "TestC17Concurrent", "race": True, "shards": 2, "shards_thorough": 4, "timeout": 900},
+            {"pkg": "./c17", "run": "TestC17Handler|TestC17ThroughProxy", "shards": 4, "shards_thorough": 16, "timeout": 300},
+            {"pkg": "./c17", "run": "TestC17Concurrent", "race": True, "shards": 2, "shards_thorough": 4, "timeout": 300},
         ],
         "rule": ("rapid-generated (response, request) pairs: bodies 0 B-1 MiB (compressible text, random, already-gzipped, repeated byte; sizes around 512/4096/32768), written in 0-8 chunks incl. empty writes, with/without "
                  "explicit WriteHeader, statuses 200-599 and bodiless 204/304, Content-Type matching / not matching / with parameters / absent (sniffed), pre-set Content-Encoding none/gzip/br/identity/deflate, "
@@ -207,9 +207,9 @@ PROPS = {
     },
     "C15": {
         "units": [
-            {"pkg": "./c15", "shards": 8, "shards_thorough": 16, "timeout": 900},
-            {"pkg": "./mainpkg", "run": "^TestC15", "shards": 2, "shards_thorough": 4, "timeout": 900},
-            {"pkg": "./sysbin", "run": "^TestC15", "shards": 1, "shards_thorough": 2, "timeout": 900},
+            {"pkg": "./c15", "shards": 8, "shards_thorough": 16, "timeout": 300},
+            {"pkg": "./mainpkg", "run": "^TestC15", "shards": 2, "shards_thorough": 4, "timeout": 300},
+            {"pkg": "./sysbin", "run": "^TestC15", "shards": 1, "shards_thorough": 2, "timeout": 300},
         ],
         "fuzz": [{"pkg": "./c15", "target": "FuzzC15Properties", "time": "180s"}, {"pkg": "./c15", "target": "FuzzC15Environ", "time": "180s"}],
         "rule": ("the option list (name, type) is extracted at run time from config/load.go of the tree under test; for EVERY option and EVERY unordered pair of the four sources (command line in -k=v / -k v / --k=v form, "
@@ -227,9 +227,9 @@ PROPS = {
     },
     "C13": {
         "units": [
-            {"pkg": "./c13", "run": "TestC13Sequential|TestC13SelfRedirect|TestC13FromServiceTags", "shards": 4, "shards_thorough": 16, "timeout": 900},
-            {"pkg": "./c13", "run": "TestC13Concurrent", "race": True, "shards": 2, "shards_thorough": 4, "timeout": 900},
-            {"pkg": "./mainpkg", "run": "^TestC13", "shards": 2, "shards_thorough": 4, "timeout": 900},
+            {"pkg": "./c13", "run": "TestC13Sequential|TestC13SelfRedirect|TestC13FromServiceTags", "shards": 4, "shards_thorough": 16, "timeout": 300},
+            {"pkg": "./c13", "run": "TestC13Concurrent", "race": True, "shards": 2, "shards_thorough": 4, "timeout": 300},
+            {"pkg": "./mainpkg", "run": "^TestC13", "shards": 2, "shards_thorough": 4, "timeout": 300},
         ],
         "rule": ("rapid-generated redirect routes over the documented template forms (https://h$path, https://$host$path, http://h/$path, http://h/bbb$path, http://h/bbb/$path, fixed targets, $host with fixed path; "
                  "with/without own query) under host-less, host-specific, *:80 and *.x routes, codes 300-399, strip/prepend combinations; requests parsed by net/http from raw bytes with percent-encoded octets "
@@ -244,7 +244,7 @@ PROPS = {
         "assumptions": COMMON_ASSUME,
     },
     "C12": {
-        "units": [{"pkg": "./c12", "shards": 8, "shards_thorough": 16, "timeout": 900}],
+        "units": [{"pkg": "./c12", "shards": 8, "shards_thorough": 16, "timeout": 300}],
         "rule": ("rapid-generated allow=/deny= lists of 1-6 items (IPv4/IPv6 addresses and CIDR blocks incl. /0, /32, /128, 4-in-6, host bits set; 'ip:' in any case and spacing; malformed items: mask 33/129, "
                  "missing octet, no/unknown type, empty, zone; allow and deny together), peers inside / at both edges of / just outside each block, IPv4, IPv6, 4-in-6 and zone-scoped, X-Forwarded-For chains of 0-4 "
                  "elements (valid, garbage, peer repeated, padded). HTTP decisions through HTTPProxy.ServeHTTP with a hit-counting RoundTripper, TCP through AccessDeniedTCP on a stub conn and end to end through "
@@ -258,8 +258,8 @@ PROPS = {
     },
     "C10": {
         "units": [
-            {"pkg": "./c10", "shards": 8, "shards_thorough": 16, "timeout": 900},
-            {"pkg": "./mainpkg", "run": "^TestC10", "race": True, "shards": 2, "shards_thorough": 4, "timeout": 900},
+            {"pkg": "./c10", "shards": 8, "shards_thorough": 16, "timeout": 300},
+            {"pkg": "./mainpkg", "run": "^TestC10", "race": True, "shards": 2, "shards_thorough": 4, "timeout": 300},
         ],
         "fuzz": [{"pkg": "./c10", "target": "FuzzC10ReadServerName", "time": "600s"}],
         "rule": ("(1) ClientHellos emitted by crypto/tls clients with rapid-generated configs (server names 1-249 bytes in any case, underscores, punycode, trailing dot, IP literal => no SNI; ALPN lists; "
@@ -279,9 +279,9 @@ PROPS = {
     },
     "C02": {
         "units": [
-            {"pkg": "./c02", "shards": 6, "shards_thorough": 16, "timeout": 900},
-            {"pkg": "./c02c", "race": True, "shards": 2, "shards_thorough": 4, "timeout": 900},
-            {"pkg": "./mainpkg", "run": "^TestC02b", "shards": 2, "shards_thorough": 4, "timeout": 900},
+            {"pkg": "./c02", "shards": 6, "shards_thorough": 16, "timeout": 300},
+            {"pkg": "./c02c", "race": True, "shards": 2, "shards_thorough": 4, "timeout": 300},
+            {"pkg": "./mainpkg", "run": "^TestC02b", "shards": 2, "shards_thorough": 4, "timeout": 300},
         ],
         "fuzz": [{"pkg": "./c02", "target": "FuzzC02NewTable", "time": "300s"}],
         "rule": ("(a) rapid-generated route-config texts from a line grammar (add/del/weight, comments, flexible spacing, CRLF) salted with hostile tokens: non-finite/huge/denormal/hex weights, "
@@ -300,8 +300,8 @@ PROPS = {
     },
     "C05": {
         "units": [
-            {"pkg": "./c05", "shards": 4, "shards_thorough": 16, "timeout": 600},
-            {"pkg": "./mainpkg", "run": "^TestC05", "shards": 2, "shards_thorough": 4, "timeout": 900},
+            {"pkg": "./c05", "shards": 4, "shards_thorough": 16, "timeout": 300},
+            {"pkg": "./mainpkg", "run": "^TestC05", "shards": 2, "shards_thorough": 4, "timeout": 300},
         ],
         "rule": ("rapid-generated programs of 1-25 well-formed route add/del/weight commands (all documented forms, flexible spacing) over 3 services, 6 hosts in random letter case, "
                  "4 paths, 4 targets, tags incl. backslash and non-ASCII, option maps, weights with <=4 decimals. Oracle: independent in-harness model of the documented semantics "
@@ -315,8 +315,8 @@ PROPS = {
     },
     "C04": {
         "units": [
-            {"pkg": "./c04", "shards": 8, "shards_thorough": 16, "timeout": 600},
-            {"pkg": "./mainpkg", "run": "^TestC04", "shards": 4, "shards_thorough": 8, "timeout": 900},
+            {"pkg": "./c04", "shards": 8, "shards_thorough": 16, "timeout": 300},
+            {"pkg": "./mainpkg", "run": "^TestC04", "shards": 4, "shards_thorough": 8, "timeout": 300},
         ],
         "rule": ("rapid-generated routes with 1-40 targets, each fixed weight in {0, k/10000, tiny, >1 up to 10, negative} or dynamic, built by 'route add ... weight' lines and "
                  "0-6 'route weight' commands over services and tag sets. Oracle: float64 reference arithmetic from the statement (tolerance 1e-9 on Target.Weight, sum 1); "
@@ -330,7 +330,7 @@ PROPS = {
         "assumptions": COMMON_ASSUME,
     },
     "C03": {
-        "units": [{"pkg": "./c03", "shards": 4, "shards_thorough": 16, "timeout": 600}],
+        "units": [{"pkg": "./c03", "shards": 4, "shards_thorough": 16, "timeout": 300}],
         "rule": ("rapid-generated (table, requests) pairs: 1-12 routes over a colliding universe of hosts (exact names sharing suffixes, *.x wildcards at several depths, "
                  "host:80/:443/:8080, host-less, written in mixed case) and nested paths; requests = route hosts / wildcard instances / unrelated names in random letter case "
                  "with optional :80/:443/:other port, TLS on/off, paths extended/truncated/case-flipped; all three matchers, glob matching on and off, both pickers, small glob caches; "
@@ -345,9 +345,9 @@ PROPS = {
     },
     "C20": {
         "units": [
-            {"pkg": "./c20", "run": "TestC20LogLine|TestC20EachField|TestC20Uint16|TestC20I32toa|TestC20UUID|TestC20STS|TestC20ProxyLogging|TestC20ProxyFinalStatus|TestC20LogTargetFaults", "shards": 4, "shards_thorough": 16, "timeout": 600},
-            {"pkg": "./mainpkg", "run": "^TestC20", "shards": 2, "shards_thorough": 4, "timeout": 900},
-            {"pkg": "./c20", "run": "TestC20ConcurrentLogging|TestC20ConcurrentUUID", "race": True, "shards": 2, "shards_thorough": 4, "timeout": 600},
+            {"pkg": "./c20", "run": "TestC20LogLine|TestC20EachField|TestC20Uint16|TestC20I32toa|TestC20UUID|TestC20STS|TestC20ProxyLogging|TestC20ProxyFinalStatus|TestC20LogTargetFaults", "shards": 4, "shards_thorough": 16, "timeout": 300},
+            {"pkg": "./mainpkg", "run": "^TestC20", "shards": 2, "shards_thorough": 4, "timeout": 300},
+            {"pkg": "./c20", "run": "TestC20ConcurrentLogging|TestC20ConcurrentUUID", "race": True, "shards": 2, "shards_thorough": 4, "timeout": 300},
         ],
         "fuzz": [],
         "rule": ("rapid-generated (format, event) pairs: format = random sequence over logger.Fields, $header.<Name> and literal text "
